@@ -971,6 +971,12 @@ async fn run_timed_case(out: &mut Out, case: TimedCase) {
         }
     }
     events.sort_by_key(|e| e.stamp);
+    judge_timed(out, events, case.n, &case.label, clients);
+}
+
+/// hand one stamped TIMED history (every invocation carries the virtual time it was made at) to the
+/// verified timed checker and to the independent one
+fn judge_timed(out: &mut Out, events: Vec<TEvent>, n: usize, label: &str, clients: usize) {
     out.op("NEW".into(), "ok".into());
     let mut text = Vec::new();
     for e in &events {
@@ -1002,18 +1008,18 @@ async fn run_timed_case(out: &mut Out, case: TimedCase) {
     let lin = bad.is_empty();
     out.op("CHECK".into(), if lin { "lin".into() } else { "not-lin".into() });
     out.count("class:timed");
-    out.count(&format!("timed:{}", case.label));
-    out.count(&format!("shards:{}", case.n));
+    out.count(&format!("timed:{}", label));
+    out.count(&format!("shards:{}", n));
     out.count(if lin { "verdict:lin" } else { "verdict:not-lin" });
     if !lin {
         out.violation(
-            &format!("C02:not-linearizable:timed:shards={}", case.n),
-            &format!("{} shards, {}: with deadlines and the clock advanced between phases, the history of key(s) {} admits no linearization (an operation invoked at virtual time t sees a key iff t < its deadline)", case.n, case.label, bad.join(",")),
-            json!({"shards": case.n, "class": "timed", "pattern": case.label, "history": text}),
+            &format!("C02:not-linearizable:timed:shards={}", n),
+            &format!("{} shards, {}: with deadlines and the clock advanced between phases, the history of key(s) {} admits no linearization (an operation invoked at virtual time t sees a key iff t < its deadline)", n, label, bad.join(",")),
+            json!({"shards": n, "class": "timed", "pattern": label, "history": text}),
         );
     }
     out.case(&text.join(";"), true);
-    out.sample(json!({"shards": case.n, "class": "timed", "clients": clients, "history": text.iter().take(16).collect::<Vec<_>>()}));
+    out.sample(json!({"shards": n, "class": "timed", "clients": clients, "history": text.iter().take(16).collect::<Vec<_>>()}));
 }
 
 fn out_count_path(_op: &Op) {}
@@ -1070,6 +1076,7 @@ pub fn run(a: &Args) {
     drop(rt);
     // enumerated schedules: a current-thread runtime, request futures polled by hand
     sched::run(&mut out, fixed, &mut Rng::new(a.seed ^ 0x5C4ED), a.n > 50_000);
+    sched::run_timed(&mut out, a.n > 50_000);
     out.extra.insert("audit".into(), serde_json::from_str(r####"{
  "1 entry paths": "CLOSED: every ShardMessage kind that carries a client request is in the concurrent mix (generic incl. EVAL/EVALSHA, fast, pooled, batch get/set) — see C03 api_coverage; EvictExpired is not a client operation (no history event); session 4: the entry path is a quantifier of the M7-level theorem (linearizable_node_entry_paths: ReqV.via cls now c for every frame class of Shards.dispatch)",
  "2 input alphabet": "CLOSED: keys from C03's structured alphabet; values incl. integers / non-integers for INCR; OPEN: only string commands in histories (other types: C01)",
@@ -1077,7 +1084,7 @@ pub fn run(a: &Args) {
  "4 configuration": "CLOSED: 1,2,4,8,16 shards; response pool capacity 1..256 / prewarm 0..capacity in the cancellation histories; 2..8 clients",
  "5 capacity thresholds": "CLOSED: more pooled acquisitions than the pool holds, during and after a stall; pool of capacity 1",
  "6 fault kinds": "CLOSED: request futures dropped while queued (the only await point of the pooled / oneshot paths is the response wait; send is synchronous); OPEN: shard actor panic / channel closure ('ERR shard unavailable') not injected",
- "7 history shapes": "CLOSED: overlapping ops on one key, sequential corpora per path pair, batched calls, generic fan-outs racing single-key ops, abandoned (pending) operations, timed phases; OPEN: clock advancing WHILE operations are in flight (phases advance it only when all clients are idle)",
+ "7 history shapes": "CLOSED: overlapping ops on one key, sequential corpora per path pair, batched calls, generic fan-outs racing single-key ops, abandoned (pending) operations, timed phases; CLOSED (session 4): the clock advancing WHILE requests are in flight — timed enumerated schedules (c02sched.rs run_timed: three requests invoked at deadline-5 / deadline / deadline+5 in every interleaving, pooled / generic / batched / fast reads and a write, optionally the clock running far past the deadline while everything is still queued: the stamp of a message, not the time the shard gets to it, decides what it sees); OPEN: inverted stamps inside one mailbox (a client that reads the clock, is descheduled, and enqueues after a later-stamped request) cannot be produced through the public entry points on one thread",
  "8 node-global state": "CLOSED: script introduced by EVAL on one shard, EVALSHA elsewhere; multi-call scripts (session 3): XINCR = GET/+1/SET script judged as an increment in the counter histories, two-key transfer/sum scripts racing plain commands (oracle C02:script-not-atomic:transfer); model: Redis.Prog / linearizable_m7_single_store",
  "9 observations": "CLOSED: every reply (verified WGL + Rust checker), direct reply-matches-request oracle in cancellation histories; fan-outs: every ITEM of MGET/MSET is a single-key op inside the call's interval, every key of multi-key DEL / FLUSHALL is a delete without observable reply (pending op); OPEN: DBSIZE / KEYS / SCAN / RANDOMKEY replies under concurrency are NOT judged (no atomic-snapshot claim is made for fan-outs: C02 is per key)",
  "10 finding absorption": "no listed finding for C02",
